@@ -147,7 +147,21 @@ var reContent = regexp.MustCompile(`^\[(\d+)\] Error: .*'X(\d+)' not found`)
 
 // c17Exec runs hermes2go on the range and returns the dispatched ids, the completed (error-reported) ids, and the summary ids.
 func c17Exec(bin, dir, batch string, rng string, conc int) (dispatched, done, summary []int, contents []int, raw string, timedOut bool, err error) {
-	out, e, to := runBin(60, dir, bin, "-module", "batch", "-concurrent", strconv.Itoa(conc), "-logoutput", "-workingdir", dir, "-batch", batch, "-lines", rng)
+	// the options in an order that depends on the range: every option is a self-contained flag (pair), so any order on the
+	// command line must execute the same lines (-lines in front of -batch as well as behind it)
+	opts := [][]string{{"-module", "batch"}, {"-concurrent", strconv.Itoa(conc)}, {"-logoutput"}, {"-workingdir", dir}, {"-batch", batch}, {"-lines", rng}}
+	ro := NewRng(mix(hashStr(rng), uint64(conc)+uint64(len(batch))))
+	if ro.Bool(0.6) {
+		for k := len(opts) - 1; k > 0; k-- {
+			o := ro.Intn(k + 1)
+			opts[k], opts[o] = opts[o], opts[k]
+		}
+	}
+	var args []string
+	for _, o := range opts {
+		args = append(args, o...)
+	}
+	out, e, to := runBin(60, dir, bin, args...)
 	raw = out
 	if to {
 		return nil, nil, nil, nil, raw, true, nil
